@@ -621,7 +621,7 @@ func rtTokens(a *aggregator, v *rtView) {
 		if call == nil {
 			a.Bad("R-add-wiring", "Init/add records the token", cfg, v.in.srcPos(add.Pos()), "add does not call tokens.Add: no token is recorded")
 		} else {
-			callee := call.Call.StaticCallee()
+			callee := originFn(call.Call.StaticCallee())
 			flow := addFieldFlow(callee) // param index -> "field:<name>" | "index"
 			var why []string
 			want := map[string]func(ssa.Value) bool{
@@ -722,10 +722,7 @@ func rtTokens(a *aggregator, v *rtView) {
 				if !ok || !strings.HasSuffix(calleeName(cl), ".Trim") {
 					return
 				}
-				arg := cl.Call.Args[len(cl.Call.Args)-1]
-				if cv, ok := arg.(*ssa.Convert); ok {
-					arg = cv.X
-				}
+				arg := unconv(cl.Call.Args[len(cl.Call.Args)-1])
 				if !v.isLoadOfVar(arg, "tokenIndex") {
 					why = "Trim is not given tokenIndex"
 					return
@@ -763,10 +760,7 @@ func rtTokens(a *aggregator, v *rtView) {
 			instrsOf(tf, func(in ssa.Instruction) {
 				if st, ok := in.(*ssa.Store); ok {
 					if sl, ok := st.Val.(*ssa.Slice); ok && sl.Low == nil && sl.High != nil {
-						h := sl.High
-						if cv, ok := h.(*ssa.Convert); ok {
-							h = cv.X
-						}
+						h := unconv(sl.High)
 						if _, isP := h.(*ssa.Parameter); isP {
 							okT = true
 						}
@@ -818,9 +812,7 @@ func addFieldFlow(f *ssa.Function) map[int]string {
 		return out
 	}
 	pidx := func(x ssa.Value) int {
-		if cv, ok := x.(*ssa.Convert); ok {
-			x = cv.X
-		}
+		x = unconv(x)
 		for i, p := range f.Params {
 			if ssa.Value(p) == x {
 				return i
@@ -1165,13 +1157,7 @@ func rtRune(a *aggregator, v *rtView) {
 
 // fromTokenField: x is (a conversion of) a load of some token's field `name`.
 func fromTokenField(x ssa.Value, name string) bool {
-	for i := 0; i < 4; i++ {
-		if cv, ok := x.(*ssa.Convert); ok {
-			x = cv.X
-			continue
-		}
-		break
-	}
+	x = unconv(x)
 	switch y := x.(type) {
 	case *ssa.UnOp:
 		if fa, ok := y.X.(*ssa.FieldAddr); ok {
